@@ -149,6 +149,20 @@ SPECS = {
               S('P2', 1, M_P0 | mf('PAYLOAD'), O_PALL, W, ['--copy'], prefills=[0x00, 0xFF], share=2), S('T4', 2, M_T, O_TALL, W, ['--copy'])]),
 }
 
+# every explorer-driven property is also run on builds under the other language standards (the default harness build is C++17),
+# under clang with C++20, and with the project's debug define: one deviation, the small configurations of that property
+_STD_VARIANTS = ('cxx11', 'cxx20', 'clang-cxx20', 'debug')
+_STD_CFGS = ('T1', 'T2', 'T3', 'P3', 'P5', 'P7', 'I1', 'I2', 'I4', 'I5', 'T1t', 'P5t', 'P5h', 'S2', 'SM2')
+for _p, _t in SPECS.items():
+    _seen = set(); _extra = []
+    for _sp in _t['quick']:
+        if _sp['cfg'] not in _STD_CFGS or _sp['variant'] != 'plain' or _sp['cfg'] in _seen or len(_seen) >= 4: continue
+        _seen.add(_sp['cfg'])
+        for _v in _STD_VARIANTS:
+            _d = dict(_sp); _d['variant'] = _v; _d['dev'] = min(_sp['dev'], 1); _d['prefills'] = None; _d['share'] = 0.5
+            _extra.append(_d)
+    _t['quick'] += _extra
+
 # thorough tiers also run the large-machine specs of the quick tiers (N = 5, 7, 8 with id subsets), one deviation deeper
 for _p, _t in SPECS.items():
     for _sp in list(_t['quick']):
